@@ -159,7 +159,7 @@ def instant_strategy(pattern):
     ).map(lambda d: truncate(d, pattern).isoformat())
 
 
-STRING_POOL = ['a', 'B', 'abc', 'x y', 'é', 'ñ ü', 'a,b', 'semi;colon',
+STRING_POOL = ['dash\x96here', '\x9fy', 'a', 'B', 'abc', 'x y', 'é', 'ñ ü', 'a,b', 'semi;colon',
                'pipe|d', 'tab\there', 'quote"d', "it's", '12', '1.5', 'true',
                ' lead', 'trail ', 'two  spaces', '#hash', 'new\nline']
 
@@ -230,6 +230,7 @@ def case_strategy(draw, tier):
         'encoding': encoding,
         'header': header,
         'titles': draw(st.booleans()),
+        'md_style': draw(st.sampled_from(MD_STYLES + ['dialect'] * 3)),
         # a history: another description was loaded from the same two paths
         # before the files were rewritten with this one
         'prior': draw(st.sampled_from([None, None, 'delimiter', 'swap-date',
@@ -318,7 +319,8 @@ def valid(case):
                     if v is not None:
                         v.encode(case['encoding'])
             c['name'].encode(case['encoding'])
-        return case.get('prior') in PRIORS
+        return case.get('prior') in PRIORS and case.get(
+            'md_style', 'dialect') in MD_STYLES
     except Exception:
         return False
 
@@ -368,10 +370,27 @@ def metadata(case):
     if case['header'] != 'present':
         dialect['header'] = False
         dialect['headerRowCount'] = 0
-    return {'@context': 'http://www.w3.org/ns/csvw', 'url': 'data.csv',
-            'dialect': dialect, 'tableSchema': {'columns': cols}}
+    md = {'@context': 'http://www.w3.org/ns/csvw', 'url': 'data.csv',
+          'dialect': dialect, 'tableSchema': {'columns': cols}}
+    style = case.get('md_style', 'dialect')
+    if style != 'dialect':
+        # encoding and/or delimiter declared the other way tdda reads them:
+        # a dc:replaces description of the resource; the dialect section
+        # then holds only what is left (possibly just the header facts)
+        resource = {}
+        if style in ('replaces-both', 'replaces-encoding'):
+            resource['encoding'] = dialect.pop('encoding')
+        if style in ('replaces-both', 'replaces-delimiter'):
+            resource['dialect'] = {'csv': {'delimiter':
+                                           dialect.pop('delimiter')}}
+        md['dc:replaces'] = json.dumps({'resources': [resource]})
+        if not dialect:
+            del md['dialect']
+    return md
 
 
+MD_STYLES = ['dialect', 'replaces-both', 'replaces-encoding',
+             'replaces-delimiter']
 PRIORS = [None, 'delimiter', 'swap-date', 'fewer-cols', 'all-strings']
 
 
